@@ -222,6 +222,33 @@ func init() {
 					if err != nil {
 						ob["r"] = "unstable:" + err.Error()
 					}
+				case "waitpassive":
+					// like waitstable, but the harness only watches: nothing pushes the routing table or runs a balancer
+					// except the members' own timers (RoutingTablePushInterval, TriggerBalancerInterval)
+					t0 := time.Now()
+					d := time.Duration(op.Ms) * time.Millisecond
+					if d == 0 {
+						d = 20 * time.Second
+					}
+					deadline := time.Now().Add(d)
+					why := ""
+					okp := false
+					for time.Now().Before(deadline) {
+						var w string
+						if okp, w = cl.stableNow(); okp {
+							break
+						}
+						why = w
+						time.Sleep(50 * time.Millisecond)
+					}
+					if cl.cc != nil {
+						cl.cc.Close(context.Background())
+						cl.cc = nil
+					}
+					ob = map[string]interface{}{"r": "ok", "t0": t0.UnixMilli(), "t1": time.Now().UnixMilli()}
+					if !okp {
+						ob["r"] = "unstable:" + why
+					}
 				case "push":
 					t0 := time.Now()
 					if c := cl.Coordinator(); c != nil {
